@@ -60,10 +60,14 @@ impl TreeBuilder {
         ensures final(self).same_but_stack_list(old(self)), final(self).stack() == old(self).stack(), final(self).sink == old(self).sink,
                 final(self).list() == w_clear_to_marker(old(self).list()),
     { unimplemented!() }
-    /// handle_misnested_a_tags (ASSUMED: an uninterpreted state transformer; it runs the adoption agency algorithm for "a")
+    /// handle_misnested_a_tags (ASSUMED: an uninterpreted state transformer - it runs the adoption agency algorithm for "a" and
+    /// removes the element from the list and the stack - that keeps the tree builder's invariants)
     #[verifier::external_body]
     pub fn handle_misnested_a_tags(&mut self, tag: &Tag)
-        ensures *final(self) == w_misnested_a(*old(self), *tag),
+        requires aaa_inv(old(self).aaa_view()),
+        ensures *final(self) == w_misnested_a(*old(self), *tag), aaa_inv(final(self).aaa_view()),
+                final(self).template_modes == old(self).template_modes, final(self).context_elem == old(self).context_elem,
+                count_templates(final(self).stack(), final(self).stack().len() as int) <= count_templates(old(self).stack(), old(self).stack().len() as int),
     { unimplemented!() }
     /// enter_foreign (ASSUMED: an uninterpreted state transformer: adjust attributes, insert a foreign element)
     #[verifier::external_body]
